@@ -96,6 +96,52 @@ func compile(tpl string) (opt, plain *expressions.CompiledKeyBuilder, err error)
 	return opt, plain, nil
 }
 
+// hasBadConstNum: some typed numeric helper of the tree has an argument that
+// rare can take for a constant (evaluating it alone performs no lookup in
+// the match - e.g. {@range abc {2}} gives up before it reads {2}) and whose
+// value is not a number. rare pre-parses constant arguments of those helpers
+// and reports a non-number when compiling.
+func hasBadConstNum(t *Node) bool {
+	found := false
+	t.walk(func(n *Node, _ int, _ bool) {
+		if found || n.T != "call" {
+			return
+		}
+		switch string(n.S) {
+		case "sumi", "subi", "multi", "maxi", "mini", "lt", "gt", "lte", "gte":
+		default:
+			return
+		}
+		for _, a := range n.A {
+			switch a.T {
+			case "lit":
+				if !canonInt.MatchString(string(a.S)) {
+					found = true
+				}
+			case "call":
+				q := a.Q
+				a.Q = false
+				kb, err := stdlib.NewStdKeyBuilderEx(false).Compile(a.arg())
+				a.Q = q
+				if err != nil || kb == nil {
+					continue // reported (and judged) at the inner helper
+				}
+				cc := &countingCtx{}
+				v, perr := safeBuild(kb, cc)
+				if perr == nil && cc.n == 0 && !canonInt.MatchString(v) {
+					found = true
+				}
+			}
+		}
+	}, 0, false)
+	return found
+}
+
+type countingCtx struct{ n int }
+
+func (c *countingCtx) GetMatch(int) string  { c.n++; return "" }
+func (c *countingCtx) GetKey(string) string { c.n++; return "" }
+
 func safeBuild(kb *expressions.CompiledKeyBuilder, ctx expressions.KeyBuilderContext) (out string, err error) {
 	defer func() {
 		if r := recover(); r != nil {
@@ -139,6 +185,16 @@ func checkOps(c OpsCase) error {
 	}
 	opt, plain, err := compile(tpl)
 	if err != nil {
+		if strings.Contains(err.Error(), "invalid arg type") && hasBadConstNum(c.Tree) {
+			// a constant sub-tree with a non-numeric value (a deliberately bad
+			// @range constant, a @reduce that concatenates text) is a whole
+			// argument of a typed helper: rare reports that when compiling
+			// ("invalid arg type, expected int") - an error report, not a
+			// wrong list
+			pbt.Exclude("constant non-numeric argument of a typed numeric helper: compile-time type error")
+			c.Obs.Label(true, "skipped")
+			return nil
+		}
 		return err
 	}
 	rounds := c.Rounds
